@@ -128,6 +128,17 @@ chk("C09", "model_checking",
     "TLA+ specs (XmlLimit, RrdpDoc) model-checked by TLC incl. liveness; spec->impl replay; impl->spec trace validation of hook events",
     "DESIGN.md §3 C09")
 
+chk("C14", "model_checking",
+    "Manifest.tla states the RFC 9286 file-name grammar, transcribes validate_file_name and resolves names against a base with "
+    "UriAlgebra's join/parent; TLC checks transcription = grammar and that every valid name resolves directly inside the base, for "
+    "every name up to length 6/7 over an 8-character alphabet, and the decode rule over manifests of 0-3 entries x hash-length classes x "
+    "time orders. Every case is assembled as ManifestContent DER by an independent encoder and decoded by the library (acceptance "
+    "compared one-directionally); len = iterator count, iter_uris under 3 bases (no panic, directly inside), hash verification = SHA-256 "
+    "equality; random manifests are validated by Trace_Manifest.",
+    "ManifestContent decoded directly; the signed wrapper is C02's; one-directional acceptance.",
+    "TLA+ spec (Manifest over UriAlgebra) model-checked by TLC; exhaustive spec->impl replay via independent DER encoder; impl->spec trace validation",
+    "DESIGN.md §3 C14")
+
 ALL = ["C%02d" % i for i in range(1, 18)]
 
 
